@@ -64,6 +64,19 @@ CLAIMED.update({
     "C12": ("Melda-level: in states with pending array and object conflicts (concurrent inserts at the same position, moves between arrays, removals; optional symbolic element ids) read() is "
             "unchanged by meld without refresh, idle refresh/reload, stage_full_snapshot (+commit, reopen), commit with automatic array resolution (+reopen) and idle commit.", "DESIGN.md §5 C12"),
 })
+CLAIMED.update({
+    "C01": ("Tree level: order-of-learning insensitivity of RevisionTree for all record sets up to 3 (thorough 4). Melda level, executed from MIR: every symbolic sequence of up to 3 (thorough 4) operations "
+            "over {update, commit, meld+refresh in both directions, unstage} on two replicas, followed by exchange to a fixpoint: both replicas, a replica fed by plain file copy with refreshes at symbolic points "
+            "and a replica opened by one reload expose the same state; plus all delivery orders of a 2-commit history.", "DESIGN.md §5 C01"),
+    "C11": ("Melda level, executed from MIR with the real-length (64 hex) digest model: after every step of a two-replica history with rich commit metadata every stored key equals the digest of its bytes "
+            "(blocks: index = 1 + max parent index), the key set only grows, existing bytes never change, melded items are byte-identical, replicas with the same history hold identical items, and "
+            "non-writing operations write nothing; pack name = digest of its bytes at the kernel level.", "DESIGN.md §5 C11"),
+    "C17": ("Partial: MemoryAdapter and the Arc<RwLock<Box<dyn Adapter>>> wrapper executed from MIR against a reference model for all sequences of 1..2 (thorough 3) writes with symbolic keys (incl. keys whose "
+            "stem ends with the suffix) and symbolic contents: first write wins, whole and ranged reads (symbolic offset/length), missing keys, listing by suffix with the suffix removed once. "
+            "Directory / SQLite / Solid backends and the compression codecs are N/A for this technique.", "DESIGN.md §5 C17"),
+    "C18": ("Partial: the same history run with canonical orders vs with <= nd_budget reversed iteration events (hash tables, sequentialised worker pool), reversed storage listing and symbolic cache "
+            "capacities 1..3 yields the same objects, winners, conflicts and documents (also after reopen and on the second replica). Worker-pool sizes / real parallel schedules N/A.", "DESIGN.md §5 C18"),
+})
 NA_REASON_PENDING = "check not built yet in this revision of /verif (Melda-level MIR reach in progress); not claimed"
 
 checks = []
